@@ -3123,6 +3123,136 @@ def inline_cm_aliases(tree: ast.Module) -> int:
     return count
 
 
+def sentinel_lookups_to_try(tree: ast.Module) -> int:
+    """`x = d.get(k, _MISSING)` followed by `if x is _MISSING: A else: B` (or the `is not` form), where `_MISSING` is a
+    module-level name bound once to `object()`: a single look-up whose miss is told by identity with a private object -
+    exactly `try: x = d[k]` / `except KeyError: A` / `else: B` (Mapping.get is defined that way).  Rewritten to that form, in
+    which the rules read look-ups, provided the miss branch never reads `x` (it would be the sentinel there)."""
+    sent: Dict[str, int] = {}
+    for n in ast.walk(tree):
+        if isinstance(n, ast.Name) and isinstance(n.ctx, (ast.Store, ast.Del)):
+            sent[n.id] = sent.get(n.id, 0) + 1
+    private: Set[str] = set()
+    for st in tree.body:
+        tg, v = None, None
+        if isinstance(st, ast.Assign) and len(st.targets) == 1 and isinstance(st.targets[0], ast.Name):
+            tg, v = st.targets[0].id, st.value
+        elif isinstance(st, ast.AnnAssign) and isinstance(st.target, ast.Name) and st.value is not None:
+            tg, v = st.target.id, st.value
+        if tg is not None and sent.get(tg) == 1 and isinstance(v, ast.Call) and isinstance(v.func, ast.Name) and v.func.id == 'object' \
+                and not v.args and not v.keywords:
+            private.add(tg)
+    if not private:
+        return 0
+    count = 0
+
+    def src_order(nodes):
+        return sorted(nodes, key=lambda z: (getattr(z, 'lineno', 0), getattr(z, 'col_offset', 0)))
+
+    for fn in ast.walk(tree):
+        if not isinstance(fn, (ast.FunctionDef, ast.AsyncFunctionDef)):
+            continue
+        for node in ast.walk(fn):
+            for field in ('body', 'orelse', 'finalbody'):
+                body = getattr(node, field, None)
+                if not isinstance(body, list):
+                    continue
+                i = 0
+                while i + 1 < len(body):
+                    st, nx = body[i], body[i + 1]
+                    i += 1
+                    tgt = val = None
+                    if isinstance(st, ast.Assign) and len(st.targets) == 1 and isinstance(st.targets[0], ast.Name):
+                        tgt, val = st.targets[0], st.value
+                    elif isinstance(st, ast.AnnAssign) and isinstance(st.target, ast.Name) and st.value is not None:
+                        tgt, val = st.target, st.value
+                    if tgt is None or not (isinstance(val, ast.Call) and isinstance(val.func, ast.Attribute) and val.func.attr == 'get'
+                                           and len(val.args) == 2 and not val.keywords and isinstance(val.args[1], ast.Name)
+                                           and val.args[1].id in private):
+                        continue
+                    S, x = val.args[1].id, tgt.id
+                    if not isinstance(nx, ast.If):
+                        continue
+                    t = nx.test
+                    if not (isinstance(t, ast.Compare) and len(t.ops) == 1 and isinstance(t.ops[0], (ast.Is, ast.IsNot))
+                            and isinstance(t.left, ast.Name) and isinstance(t.comparators[0], ast.Name)
+                            and {t.left.id, t.comparators[0].id} == {x, S}):
+                        continue
+                    miss, hit = (nx.body, nx.orelse) if isinstance(t.ops[0], ast.Is) else (nx.orelse, nx.body)
+                    # the miss branch must not read x before writing it
+                    occ = src_order([z for s_ in miss for z in ast.walk(s_) if isinstance(z, ast.Name) and z.id == x])
+                    if occ and isinstance(occ[0].ctx, ast.Load):
+                        continue
+                    # ... and when it falls through without binding x, nothing afterwards may read x
+                    binds = any(isinstance(z, ast.Name) and z.id == x and isinstance(z.ctx, ast.Store) for s_ in miss for z in ast.walk(s_))
+                    if not binds:
+                        inside = {id(z) for s_ in hit for z in ast.walk(s_)} | {id(z) for z in ast.walk(t)} | {id(tgt)}
+                        later = src_order([z for z in ast.walk(fn) if isinstance(z, ast.Name) and z.id == x and id(z) not in inside])
+                        end = getattr(nx, 'end_lineno', nx.lineno)
+                        after = [z for z in later if z.lineno > end]
+                        before = [z for z in later if z.lineno < st.lineno and isinstance(z.ctx, ast.Load)]
+                        in_loop = False
+                        q_ = getattr(st, '_alias_parent', None) or getattr(st, '_parent', None)
+                        # (whatever comes next must bind x again before reading it; inside a loop an earlier read would see the
+                        # sentinel of the previous iteration)
+                        if (after and isinstance(after[0].ctx, ast.Load)) or (before and any(
+                                isinstance(a_, (ast.For, ast.While, ast.AsyncFor)) and st in ast.walk(a_) for a_ in ast.walk(fn))):
+                            continue
+                    # the sentinel must not be used for anything else in this function through x
+                    sub = ast.Subscript(value=val.func.value, slice=val.args[0], ctx=ast.Load())
+                    ast.copy_location(sub, val)
+                    asg = ast.Assign(targets=[tgt], value=sub)
+                    ast.copy_location(asg, st)
+                    ke = ast.copy_location(ast.Name(id='KeyError', ctx=ast.Load()), nx)
+                    h = ast.ExceptHandler(type=ke, name=None, body=miss or [ast.copy_location(ast.Pass(), nx)])
+                    ast.copy_location(h, nx)
+                    tr = ast.Try(body=[asg], handlers=[h], orelse=hit or [], finalbody=[])
+                    ast.copy_location(tr, st)
+                    tr.end_lineno = getattr(nx, 'end_lineno', None)
+                    body[i - 1:i + 1] = [tr]
+                    count += 1
+    return count
+
+
+def flags_from_try(tree: ast.Module) -> int:
+    """`try: ok = <test>` / `except E: ok = False` followed by `if ok: BODY` (no else), `ok` used nowhere else: the handler's
+    only effect is to skip BODY, so this is `try: ok = <test>` / `except E: pass` / `else: if ok: BODY` - the form in which the
+    test stands next to what it guards (BODY was outside the try before and stays outside the handlers now: `else`)."""
+    count = 0
+    for fn in ast.walk(tree):
+        if not isinstance(fn, (ast.FunctionDef, ast.AsyncFunctionDef)):
+            continue
+        for node in ast.walk(fn):
+            for field in ('body', 'orelse', 'finalbody'):
+                body = getattr(node, field, None)
+                if not isinstance(body, list):
+                    continue
+                for i in range(len(body) - 1):
+                    st, nx = body[i], body[i + 1]
+                    if not (isinstance(st, ast.Try) and len(st.body) == 1 and not st.orelse and not st.finalbody and st.handlers
+                            and isinstance(nx, ast.If) and not nx.orelse and isinstance(nx.test, ast.Name)):
+                        continue
+                    a = st.body[0]
+                    if not (isinstance(a, ast.Assign) and len(a.targets) == 1 and isinstance(a.targets[0], ast.Name) and a.targets[0].id == nx.test.id):
+                        continue
+                    f = nx.test.id
+                    if not all(len(h.body) == 1 and isinstance(h.body[0], ast.Assign) and len(h.body[0].targets) == 1
+                               and isinstance(h.body[0].targets[0], ast.Name) and h.body[0].targets[0].id == f
+                               and isinstance(h.body[0].value, ast.Constant) and not h.body[0].value.value and h.name is None for h in st.handlers):
+                        continue
+                    uses = [z for z in ast.walk(fn) if isinstance(z, ast.Name) and z.id == f]
+                    if len(uses) != 2 + len(st.handlers):
+                        continue
+                    for h in st.handlers:
+                        h.body = [ast.copy_location(ast.Pass(), h.body[0])]
+                    st.orelse = [nx]
+                    del body[i + 1]
+                    fn._removed_locals = set(getattr(fn, '_removed_locals', set()))  # (nothing removed: f stays)
+                    count += 1
+                    break
+    return count
+
+
 def fold_negations(tree: ast.Module) -> int:
     """`not (a is not b)` -> `a is b`, `not (a is b)` -> `a is not b`, likewise `in` / `not in` (these pairs are exact
     negations of each other for every operand; `==` / `!=` are not and stay); `not not e` -> `e` where only the truth of the
